@@ -23,7 +23,7 @@ def cases(tier, rng, run):
     out = []
     n = 2500 if tier == "quick" else 40000
     for gi in range(n):
-        c = gen_ctx.gen_ctx(rng, tuple_p=0.0, ret_p=0.0, provider_p=0.0, perturb=(0, 0, 1))
+        c = gen_ctx.gen_ctx(rng, tuple_p=0.0, ret_p=0.0, provider_p=0.0, perturb=(0, 0, 1), alias_p=0)
         # values must be arrays or None-under-optional
         ok = all(s.value[0] == "T" or (s.value[0] == "N" and s.optional) for p in c.params for s in p.slots)
         if not ok:
